@@ -241,6 +241,10 @@ pub fn copy_sparse(infd: &File, outfd: &File) -> Result<u64> {
     let mut pos = 0;
     while pos < len {
         let (next_data, next_hole) = next_sparse_segments(infd, outfd, pos)?;
+        if next_hole <= pos {
+            // The source shrank below `pos`; the walk would never end.
+            return Err(crate::Error::InvalidSource("Source file ended prematurely."));
+        }
 
         let _written = copy_file_bytes(infd, outfd, next_hole - next_data)?;
         pos = next_hole;
